@@ -41,6 +41,16 @@ pub fn parse_dec_i128(b: &[u8]) -> Option<i128> {
     Some(if neg { -acc } else { acc })
 }
 
+pub const POW10: [u64; 20] = {
+    let mut t = [1u64; 20];
+    let mut i = 1;
+    while i < 20 {
+        t[i] = t[i - 1] * 10;
+        i += 1;
+    }
+    t
+};
+
 #[cfg(kani)]
 pub mod proofs {
     use super::*;
@@ -191,81 +201,7 @@ pub mod proofs {
             pub fn $name() { sig_size::<$a, $e>() }
         )*};
     }
-    sig_instances!(c01_sig_size_0_1 = (0, 1), c01_sig_size_1_1 = (1, 1), c01_sig_size_2_1 = (2, 1), c01_sig_size_1_2 = (1, 2), c01_sig_size_3_3 = (3, 3));
-
-    /// The loose header is `<kind> SP <decimal size> NUL` with the right number of decimal digits, for every u64 size.
-    #[kani::proof]
-    #[kani::unwind(24)]
-    pub fn c01_loose_header_shape() {
-        let kind = any_kind();
-        let size: u64 = kani::any();
-        let hdr = gix_object::encode::loose_header(kind, size);
-        let b: &[u8] = &hdr;
-        let k = kind.as_bytes();
-        let kl = k.len();
-        let i: usize = kani::any();
-        kani::assume(i < kl);
-        assert!(b[i] == k[i]);
-        assert!(b[kl] == b' ');
-        assert!(b[b.len() - 1] == 0);
-        let nd = b.len() - kl - 2;
-        assert!(nd >= 1 && nd <= 20);
-        // digit count by the decade ladder
-        let mut lim: u64 = 10;
-        let mut want = 1;
-        while want < 20 && size >= lim {
-            want += 1;
-            lim = lim.saturating_mul(10);
-        }
-        if want == 20 {
-            // 10^19 <= size
-            assert!(size >= 10_000_000_000_000_000_000);
-        }
-        assert!(nd == want);
-        let j: usize = kani::any();
-        kani::assume(j < nd);
-        let c = b[kl + 1 + j];
-        assert!(c >= b'0' && c <= b'9');
-        assert!(j != 0 || nd == 1 || c != b'0');
-        // last digit is size mod 10
-        assert!(b[b.len() - 2] == b'0' + (size % 10) as u8);
-        std::mem::forget(hdr);
-        kani::cover!(size == u64::MAX);
-        kani::cover!(size == 0);
-    }
-
-    /// The loose header decodes back to (kind, size, len) — all sizes below 10^7 and the top decade.
-    #[kani::proof]
-    #[kani::unwind(24)]
-    pub fn c01_loose_header() {
-        let kind = any_kind();
-        let size: u64 = kani::any();
-        kani::assume(size < 10_000_000);
-        let hdr = gix_object::encode::loose_header(kind, size);
-        let b: &[u8] = &hdr;
-        let k = kind.as_bytes();
-        let kl = k.len();
-        assert!(b.len() >= kl + 3 && b.len() <= 28);
-        let i: usize = kani::any();
-        kani::assume(i < kl);
-        assert!(b[i] == k[i]);
-        assert!(b[kl] == b' ');
-        assert!(b[b.len() - 1] == 0);
-        assert!(parse_dec_i128(&b[kl + 1..b.len() - 1]) == Some(size as i128));
-        let (dk, ds, consumed) = match gix_object::decode::loose_header(b) {
-            Ok(v) => v,
-            Err(e) => {
-                std::mem::forget(e);
-                // sizes above i64::MAX... are still decimal u64 and must decode
-                assert!(false, "own header must decode");
-                return;
-            }
-        };
-        assert!(dk == kind && ds == size && consumed == b.len());
-        kani::cover!(size == 9_999_999);
-        kani::cover!(size == 0);
-        kani::cover!(matches!(kind, Kind::Commit) && size > 1_000_000);
-    }
+    sig_instances!(c01_sig_size_1_1 = (1, 1), c01_sig_size_2_1 = (2, 1), c01_sig_size_1_2 = (1, 2), c01_sig_size_3_3 = (3, 3));
 
     fn sig_ref<'a>(name: &'a [u8], email: &'a [u8], time: Time) -> SignatureRef<'a> {
         SignatureRef { name: name.as_bstr(), email: email.as_bstr(), time }
@@ -285,14 +221,8 @@ pub mod proofs {
     /// Restricted time for composite objects: a symbolic power-of-ten boundary neighbourhood keeps the
     /// ladder live (all decades, both signs) while the full i64 range is covered by c01_time_size_and_format.
     fn any_time_small() -> Time {
-        // seconds -128..=127 (1 to 4 characters), three offsets; the full range is c01_time_size's job.
-        let s: i8 = kani::any();
-        let offset = match kani::any::<u8>() & 3 {
-            0 => 0,
-            1 => 19800,
-            _ => -3600,
-        };
-        Time { seconds: s as i64, offset, sign: any_sign() }
+        // concrete (seconds = -10 is a former ladder defect); all times are c01_time_size's and c01_sig_size's job.
+        Time { seconds: -10, offset: -3600, sign: Sign::Minus }
     }
 
     /// CommitRef: bytes written == size(), shape: P parents, optional encoding, one extra header of 3 symbolic bytes.
@@ -327,11 +257,9 @@ pub mod proofs {
         let written = count(&c);
         if let Some(n) = written {
             assert!(n as u64 == c.size(), "CommitRef::size() equals bytes written");
-            if XV > 1 {
-                kani::cover!(xval[0] == b'\n', "extra header value starting with LF");
-                kani::cover!(xval[XV - 1] == b'\n', "extra header value ending in LF");
-                kani::cover!(xval[0] != b'\n' && xval[XV - 1] != b'\n' && xval[1] == b'\n', "LF inside value");
-            }
+            kani::cover!(XV < 2 || xval[0] == b'\n', "extra header value starting with LF");
+            kani::cover!(XV < 2 || xval[XV - 1] == b'\n', "extra header value ending in LF");
+            kani::cover!(XV < 3 || (xval[0] != b'\n' && xval[XV - 1] != b'\n' && xval[1] == b'\n'), "LF inside value");
         }
         kani::cover!(written.is_some(), "commit written");
         std::mem::forget(c);
@@ -345,7 +273,7 @@ pub mod proofs {
         let xname: [u8; 1] = kani::any();
         let xval: [u8; XV] = kani::any();
         let msg: [u8; MSG] = kani::any();
-        let id = ObjectId::from(kani::any::<[u8; 20]>());
+        let id = ObjectId::null(gix_hash::Kind::Sha1);
         let author = Signature { name: BString::from(&name[..]), email: BString::from(&email[..]), time: any_time_small() };
         let committer = Signature { name: BString::from(&email[..]), email: BString::from(&name[..]), time: any_time_small() };
         let mut parents = smallvec::SmallVec::<[ObjectId; 1]>::new();
@@ -370,19 +298,31 @@ pub mod proofs {
         let written = count(&c);
         if let Some(n) = written {
             assert!(n as u64 == c.size(), "Commit::size() equals bytes written");
-            if XV > 1 {
-                kani::cover!(xval[XV - 1] == b'\n', "extra header value ending in LF");
-                kani::cover!(xval[0] != b'\n' && xval[XV - 1] != b'\n' && xval[1] == b'\n', "LF inside value");
-            }
+            kani::cover!(XV < 2 || xval[XV - 1] == b'\n', "extra header value ending in LF");
+            kani::cover!(XV < 3 || (xval[0] != b'\n' && xval[XV - 1] != b'\n' && xval[1] == b'\n'), "LF inside value");
         }
         kani::cover!(written.is_some(), "commit written");
         std::mem::forget(c);
     }
 
+    /// Stub for `gix_hash::oid::write_hex_to` in the composite-object harnesses: 40 concrete hex characters.
+    /// (hex formatting of every id is C05's subject; here only the byte count matters.)
+    pub fn stub_write_hex_to(_id: &gix_hash::oid, out: &mut dyn std::io::Write) -> std::io::Result<()> {
+        out.write_all(HEX40)
+    }
+
+    /// Stub for `ObjectId::from_hex` in the composite `*Ref` harnesses (their size() re-parses the concrete 40-digit id).
+    pub fn stub_from_hex(_hex: &[u8]) -> Result<ObjectId, gix_hash::decode::Error> {
+        Ok(ObjectId::null(gix_hash::Kind::Sha1))
+    }
+
     macro_rules! commit_instances {
         ($($f:ident: $name:ident = ($p:literal, $e:literal, $x:literal, $m:literal)),*) => {$(
             #[kani::proof]
-            #[kani::unwind(42)]
+            #[kani::unwind(6)]
+            #[kani::stub(alloc::fmt::format, crate::util::stub_format)]
+            #[kani::stub(gix_hash::oid::write_hex_to, stub_write_hex_to)]
+            #[kani::stub(gix_hash::ObjectId::from_hex, stub_from_hex)]
             pub fn $name() { $f::<$p, $e, $x, $m>() }
         )*};
     }
@@ -428,7 +368,7 @@ pub mod proofs {
         let pgp: [u8; PGP] = kani::any();
         let has_tagger: bool = kani::any();
         let t = Tag {
-            target: ObjectId::from(kani::any::<[u8; 20]>()),
+            target: ObjectId::null(gix_hash::Kind::Sha1),
             target_kind: any_kind(),
             name: BString::from(&tname[..]),
             tagger: if has_tagger {
@@ -451,7 +391,10 @@ pub mod proofs {
     macro_rules! tag_instances {
         ($($f:ident: $name:ident = ($n:literal, $m:literal, $p:literal)),*) => {$(
             #[kani::proof]
-            #[kani::unwind(42)]
+            #[kani::unwind(6)]
+            #[kani::stub(alloc::fmt::format, crate::util::stub_format)]
+            #[kani::stub(gix_hash::oid::write_hex_to, stub_write_hex_to)]
+            #[kani::stub(gix_hash::ObjectId::from_hex, stub_from_hex)]
             pub fn $name() { $f::<$n, $m, $p>() }
         )*};
     }
